@@ -73,6 +73,7 @@ type chaosOpts struct {
 	Crash, PowerLoss, Partition, CoordCrash, BreakStreams, NetLoss, MetaFail, Swap bool
 	Yields      bool
 	TriggerFence bool // hold NewTerm requests until the target is in the middle of something
+	FencePressure bool // prefer faults that make the coordinator re-elect over a live, busy leader
 	ReadsOnly   bool
 	Window      time.Duration
 	CheckLinearizability bool
@@ -94,6 +95,7 @@ type chaos struct {
 
 	// monitors
 	mon *monitors
+	spares []string
 }
 
 func (c *chaos) Stamp() int64 { return c.stamp.Add(1) }
@@ -127,6 +129,12 @@ func newChaos(r *Run, o chaosOpts) *chaos {
 	}
 	cl := NewCluster(w, names, []model.NamespaceConfig{{Name: "default", InitialShardCount: o.Shards, ReplicationFactor: o.RF}})
 	c := &chaos{r: r, w: w, cl: cl, o: o, g: g}
+	if o.Swap {
+		// one spare node is running but not part of the cluster config until a swap fault
+		spare := fmt.Sprintf("n%d", o.Nodes+1)
+		cl.NodeNames = append(cl.NodeNames, spare)
+		c.spares = []string{spare}
+	}
 	c.mon = newMonitors(c)
 	if o.MetaFail {
 		// Store *errors* are not injected: resources.status logs through a nil embedded
@@ -370,6 +378,12 @@ func (c *chaos) injectFault(i int) {
 	if c.o.BreakStreams && len(live) > 1 {
 		kinds = append(kinds, "break")
 	}
+	if c.o.Swap && len(c.spares) > 0 {
+		kinds = append(kinds, "swap", "swap")
+	}
+	if c.o.FencePressure {
+		kinds = append(kinds, "mutecoord", "mutecoord", "mutecoord", "mutecoord")
+	}
 	if len(kinds) == 0 {
 		return
 	}
@@ -423,6 +437,35 @@ func (c *chaos) injectFault(i int) {
 		c.plan = append(c.plan, fmt.Sprintf("t=%v block %s>%s for %v", c.r.Now(), a, b, d))
 		c.r.Count("fault_oneway", 1)
 		c.w.Net.After(d, fmt.Sprintf("heal1/%d", i), func() { c.w.Net.Heal(a, b) })
+	case "swap":
+		// replace one configured server by the spare: the coordinator's balancer moves its
+		// replicas with SwapNode actions (one election per affected shard)
+		c.cl.cfgMu.Lock()
+		cfg := cloneConfig(c.cl.Config)
+		c.cl.cfgMu.Unlock()
+		if len(cfg.Servers) == 0 {
+			return
+		}
+		idx := g.Intn(len(cfg.Servers))
+		out := nodeOfAddr(cfg.Servers[idx].GetIdentifier())
+		in := c.spares[0]
+		cfg.Servers[idx] = serverOf(in)
+		c.spares = append(c.spares[1:], out)
+		c.plan = append(c.plan, fmt.Sprintf("t=%v swap %s->%s", c.r.Now(), out, in))
+		c.r.Count("fault_swap", 1)
+		c.cl.SetConfig(cfg)
+	case "mutecoord":
+		// the leader's answers to the coordinator are lost: the coordinator declares it dead and
+		// fences the whole ensemble while the leader is alive and serving
+		victim := c.mon.currentLeader(int64(g.Intn(int(c.o.Shards))))
+		if victim == "" {
+			return
+		}
+		c.w.Net.Partition(victim, "coord")
+		d := time.Duration(g.Range(2500, 9000)) * time.Millisecond
+		c.plan = append(c.plan, fmt.Sprintf("t=%v block %s>coord for %v", c.r.Now(), victim, d))
+		c.r.Count("fault_mute_leader_to_coord", 1)
+		c.w.Net.After(d, fmt.Sprintf("healmute/%d", i), func() { c.w.Net.Heal(victim, "coord") })
 	case "coord":
 		if c.cl.Coord == nil {
 			return
